@@ -244,6 +244,16 @@ func runC15(c *eng.Ctx) {
 		if !decided {
 			c.Check("R4", "reify-to-tracked-function", rp.Pos(), false, "the reification decision could be extracted")
 		}
+		// each child is reified against ITS OWN ancestor entry: the ancestor
+		// argument of the recursive call is the lookup of this iteration's name in
+		// the ancestor's contents (nil when absent) — not a variable that could
+		// still hold a sibling's entry
+		for _, call := range eng.CallsTo(rp, rp) {
+			a0 := eng.Unwrap(call.Common().Args[0])
+			lk, isLk := a0.(*ssa.Lookup)
+			okAnc := isLk && strings.Contains(eng.Render(lk.X), "GetContents(p0)") && strings.HasSuffix(eng.Render(lk.Index), "#1")
+			c.Check("R4", "child-reified-against-its-own-ancestor", call.Pos(), okAnc, "the recursive call's ancestor is ancestorContents[name] of the name being visited (absent → nil)", eng.Render(a0)[:min(160, len(eng.Render(a0)))])
+		}
 		// stores
 		nU := 0
 		eng.EachInstr(rp, func(i ssa.Instruction) {
